@@ -14,7 +14,7 @@ def run(idx, rep, tier):
         "returned buf[:n] holds exactly the kept rows (never an unwritten np.empty row). R-GUARDSTORE: capacity checks "
         "dominate the stores. R-FORCEDIR: force = scalar * contact_plane_hnf[:3]. R-POLYGUARD: fewer than three vertices "
         "means no intersection at every stage; the plane is normalised after the zero-normal test and before its offset is "
-        "interpreted. R-PLANECROSS: the tetrahedron/plane pre-filter is true iff both tetrahedra have vertices strictly on both sides (16-row truth table). Geometry of the polygon (on the plane, inside both tetrahedra, convex) is not decided.")
+        "interpreted. R-INVALIDATE: RigidBody methods that move the vertices reset every cache derived from them (incl. caches filled from outside the class). R-PLANECROSS: the tetrahedron/plane pre-filter is true iff both tetrahedra have vertices strictly on both sides (16-row truth table). Geometry of the polygon (on the plane, inside both tetrahedra, convex) is not decided.")
     rep.assumptions = DOMAIN_D
     mods = MODS
     buffers.r_compact(idx, rep, modules=mods, floor=3 if mods else 8)
@@ -22,3 +22,4 @@ def run(idx, rep, tier):
     hydro.r_forcedir(idx, rep)
     hydro.r_polyguard(idx, rep)
     hydro.r_planecross(idx, rep)
+    hydro.r_invalidate(idx, rep)      # stale per-body caches (tetrahedra points, barycentric transforms) put polygons outside their tetrahedra
